@@ -1,11 +1,12 @@
-"""C18 — substitution rewrites exactly the matched nodes: three narrow structural clauses.
+"""C18 — substitution rewrites exactly the matched nodes: four narrow structural clauses.
 
 R18.1  slot discovery is exhaustive: every class with an identifier-typed field, and Constant, is a key of
        _SUB_REPL_PATH_FUNCS; subn() uses that same table for the template walk filter and for dispatch.
 R18.2  the template is never consumed: no mutating call has `repl` as receiver (in subn or in the path functions); each
        substitution works on `repl_ = repl.copy()` created in the same iteration before any use of `repl_`.
 R18.3  counts: exactly one `total_count += 1` per performed `matched.replace(repl_, ...)` on every path.
-Not decided: structural equality with a reference transformer; nested / count / loop semantics.
+R18.4  a per-location budget (`loop`) consumed while one location is rewritten is restored on every path that leaves the location.
+Not decided: structural equality with a reference transformer; the remaining nested / count / loop semantics.
 """
 from __future__ import annotations
 
